@@ -18,17 +18,33 @@ theorem NoneOrDir.of_eqMod {a b : Option FNode} (h : EqMod a b) (ha : NoneOrDir 
     rw [hy] at hy'; cases hy'
     rw [hk]; exact ha x rfl
 
+/-- Absent, or anything but a symlink. -/
+def NotLink (a : Option FNode) : Prop := ∀ x, a = some x → x.kind ≠ .symlink
+
+theorem NoneOrDir.notLink {a : Option FNode} (h : NoneOrDir a) : NotLink a := by
+  intro x hx; rw [h x hx]; decide
+
+theorem NotLink.of_eqMod {a b : Option FNode} (h : EqMod a b) (ha : NotLink a) : NotLink b := by
+  intro y hy
+  cases a with
+  | none => rw [(h.none_iff).1 rfl] at hy; cases hy
+  | some x =>
+    obtain ⟨y', hy', hk, _⟩ := h.some_left rfl
+    rw [hy] at hy'; cases hy'
+    rw [hk]; exact ha x rfl
+
 theorem goodName_ne {c : Str} (h : goodName c = true) : c ≠ [] ∧ c ≠ [dot] ∧ c ≠ [dot, dot] := by
   have := (goodName_iff c).1 h
   exact ⟨this.1, this.2.2.2.1, this.2.2.2.2⟩
 
 /-- The walk over `cs ++ trail` (good names, then empty components) from `cur` ends at
-`cur ++ cs` if it succeeds, provided every proper intermediate prefix is absent or a directory
-and the final component is not a symlink that would be followed. -/
+`cur ++ cs` if it succeeds, provided no proper intermediate prefix is a symlink
+and the final component is not a symlink that would be followed.  (A FILE among the
+intermediate components is fine: the walk then fails with ENOTDIR.) -/
 theorem walk_clean (fs : Fs) (follow : Bool) :
     ∀ (fuel links : Nat) (cur : Path) (cs trail : List Str),
       (∀ c ∈ cs, goodName c = true) → (∀ c ∈ trail, c = []) →
-      (∀ pre, pre <+: cs → pre ≠ [] → pre ≠ cs → NoneOrDir (fs.node (cur ++ pre))) →
+      (∀ pre, pre <+: cs → pre ≠ [] → pre ≠ cs → NotLink (fs.node (cur ++ pre))) →
       ((follow = false ∧ trail = []) ∨ ∀ x, fs.node (cur ++ cs) = some x → x.kind ≠ .symlink) →
       ∀ p, walk fs follow fuel links cur (cs ++ trail) = .ok p → p = cur ++ cs := by
   intro fuel
@@ -88,8 +104,7 @@ theorem walk_clean (fs : Fs) (follow : Bool) :
                 rcases hfin with ⟨hf, htr⟩ | hf
                 · subst htr; exact hne ⟨rfl, hf⟩
                 · exact hf y hy hs
-              · have := hpre [c] (by simp) (by simp) (by simp [hcs]) y hy
-                rw [this] at hs; cases hs
+              · exact hpre [c] (by simp) (by simp) (by simp [hcs]) y hy hs
             rw [if_neg hnot] at h
             have := ih links (cur ++ [c]) cs' trail (fun d hd => hg d (List.mem_cons_of_mem _ hd)) ht
               (fun pre hp hne hne2 => by
